@@ -2,6 +2,7 @@ import BpModel.All
 import BpModel.JsonSpec
 import BpProofs.JsonSpec
 import BpProofs.Props.C04
+import BpProofs.JsonCanon
 /-
   C05 — JSON output and input follow the canonical proto3 JSON mapping.
 
@@ -15,6 +16,29 @@ import BpProofs.Props.C04
       ∃ m', fromDict S E c (specJson S E m) = .ok m' ∧ m' ≈ m ∧ dumpVal S m' = dumpVal S m
 
   WHAT IS PROVED HERE:
+    * MESSAGE LEVEL, all values, any nesting depth (`canonical_message`; proof in
+      BpProofs/JsonCanon.lean by mutual structural induction over `Val` / `List Val`):
+        jsonOk5 S E → wellTyped' S m → noNegZero S m → toDict S E .camel false m = specJson S E m
+      — plain equality of the two objects (same members, same order; no normalisation needed) for
+      singular / optional / oneof / repeated sub-messages, `map<string, Msg>`, `map<string, 32-bit |
+      bool | string>`, Timestamp / Duration singular and repeated, Int32 / UInt32 / Bool / String
+      wrappers, and singular / optional / oneof / repeated fields of all 15 scalar types.  All three
+      guards are decidable; `jsonOk5` is on the SCHEMA (C04's `jsonOk` + keys are json_names (D15) +
+      no 64-bit / float / enum map values or wrappers (D17) + Python enum names = proto names (D16)),
+      `wellTyped'` is C04's value guard (BpProofs/JsonGuard.lean), `noNegZero` is the one value guard
+      C05 adds: -0.0 in an implicit-presence float / double field is skipped by `to_dict` as "the
+      default" and written by the spec (D25, `d25_negative_zero_witness`); it cannot be a schema guard.
+      `canonical_message_canonOk` states it under the weaker schema guard the proof uses,
+      `canonical_message_driver_guard` under the value guard the driver evaluates (`wellTyped`),
+      `canonical_field` is the per-field statement (member or absence, and the key);
+    * READING BACK (`canonical_read_back`, `canonical_read_back_bytes`; from `canonical_message` and
+      `C04.roundtrip_all`, extra guards `groupsOk` / `selOk` of C04): the canonical object is JSON,
+      survives `json.loads(json.dumps(·))`, and `Cls.from_dict` / `Cls().from_dict` on it return one
+      `m'` with `DEqv m m'` and `bytes(m') = bytes(m)`;
+    * non-vacuity (`canonical_instance_guards`, `canonical_instance`, `canonical_instance_value`): the
+      theorems on a concrete recursive message with a oneof sub-message member, an optional
+      sub-message set to its default, repeated sub-messages, `map<string, Node>`, Timestamp, Duration,
+      int64 / uint64 / bytes / float NaN / enum / Int32Value fields; the canonical object evaluated;
     * leaf level, all values (`scalar_canonical`, `field_canonical_scalar`): for every
       scalar type the member betterproto writes for a singular (plain / optional / oneof) field
       is the canonical one — 64-bit ints as decimal strings, bytes base64, enum value names
@@ -23,8 +47,15 @@ import BpProofs.Props.C04
     * key level (`key_is_json_name`): under the decidable guard the emitted key is protoc's json_name;
     * concrete flat and nested messages (`canonical_*_example`): `toDict = specJson` and
       `fromDict (specJson m)` re-encodes to the bytes of `m`, by evaluation;
-    * the excluded regions: witnesses for D16, D17 (64-bit map values, Int64Value wrapper), D25.
-  NOT PROVED: the message-level induction (all fields of all flat / nested messages at once).
+    * the excluded regions: witnesses for D16, D17 (64-bit map values, Int64Value wrapper, NaN as a
+      `map<string, double>` value), D25; and `repeated_wrapper_empty_witness`: a REPEATED wrapper field
+      (outside `jsonOk`) is written as `[]` when empty — `to_dict` tests `value is not None` in the
+      `meta.wraps` branch — where the canonical mapping leaves it out (replayed on the real code).
+  NOT PROVED: nothing of the full statement inside the guards.  Outside: `include_default_values`,
+  snake_case keys (not the canonical mapping), the leaf texts (`str(int)`, base64, RFC 3339: abstract
+  constructors shared by both sides; C15 for the time formats).  The value guard is stronger than the
+  forward direction needs (no unknown fields, canonical NaN payload: both are irrelevant to the two
+  printers) — it is kept equal to C04's so that one guard serves both directions.
 -/
 namespace Bp.C05
 open Bp
@@ -108,4 +139,210 @@ theorem d25_negative_zero_witness :
     specJson C04.Sdbl [] (.msg 0 [.f64 0x8000000000000000] true [] []) = .obj [.str [120]] [.fnum 0x8000000000000000] :=
   ⟨by decide, by rfl, by rfl⟩
 
+/-! ## the message-level theorem (BpProofs/JsonCanon.lean) -/
+
+/-- **C05, sentence 1 — "JSON output follows the canonical proto3 JSON mapping" — for whole
+    messages, to any nesting depth.**  For every schema inside the decidable guard `jsonOk5`
+    (`jsonOk` = C04's D15 / D17 exclusions; keys are json_names; no 64-bit / float / enum map values
+    or wrappers: D17; Python enum member names = proto names: D16) and every value inside the
+    decidable guards `wellTyped'` (C04's value guard: every slot typed as its field says) and
+    `noNegZero` (no -0.0 in an implicit-presence float / double field: D25),
+    `m.to_dict()` IS `specJson m`: the same members in the same order with the same values —
+    singular / optional / oneof / repeated sub-messages, `map<string, Msg>`, Timestamp / Duration,
+    wrappers and every scalar type.  No normalisation is needed: both functions walk the fields in
+    declaration order.  (Mutual structural induction over `Val` / `List Val`: `canon_slots`,
+    `canon_slot`, `canon_msgs`.) -/
+theorem canonical_message (S : Schema) (E : Enums) (m : Val) (hS : jsonOk5 S E = true)
+    (hwt : wellTyped' S m = true) (hz : noNegZero S m = true) :
+    toDict S E .camel false m = specJson S E m :=
+  toDict_eq_specJson S E (canonOk_of_jsonOk5 S E hS) m hwt hz
+
+/-- the same under the weaker schema guard the proof actually uses (`canonOk`: per-field
+    `fieldJsonOk5` and `enumOk5`; that keys and enum names are read BACK correctly — `namesOk`,
+    `enumOk` — is not needed to compare the two outputs) -/
+theorem canonical_message_canonOk (S : Schema) (E : Enums) (m : Val) (hS : canonOk S E = true)
+    (hwt : wellTyped' S m = true) (hz : noNegZero S m = true) :
+    toDict S E .camel false m = specJson S E m :=
+  toDict_eq_specJson S E hS m hwt hz
+
+/-- under the value guard the driver evaluates on harness inputs (`wellTyped`, `WF WT`) -/
+theorem canonical_message_driver_guard (S : Schema) (E : Enums) (m : Val) (hS : jsonOk5 S E = true)
+    (hwt : wellTyped S m = true) (hz : noNegZero S m = true) :
+    toDict S E .camel false m = specJson S E m :=
+  canonical_message S E m hS (wellTyped_weaken S m hwt) hz
+
+/-- **field level, every kind of field**: inside the guards the member `to_dict` writes for one field
+    (or its absence) is the one the canonical mapping prescribes; `hid` / `sel` are the oneof state
+    of the field as `to_dict` computes it (`hidden`, `selectedInGroup`) -/
+theorem canonical_field (S : Schema) (E : Enums) (hS : jsonOk5 S E = true) (f : FieldD) (idx : Nat)
+    (cur : List (Option Nat)) (h5 : fieldJsonOk5 f = true) (v : Val)
+    (hv : slotOk' S f (hidden f idx cur) (selectedInGroup f idx cur) v = true) (hz : noNegZeroSlot S f v = true) :
+    toDictSlot S E .camel false f (hidden f idx cur) (selectedInGroup f idx cur) v
+      = specSlot S E f (hidden f idx cur) v ∧ jsonKey .camel f.name = specKey f.name :=
+  ⟨canon_slot S E (canonOk_of_jsonOk5 S E hS) f _ _ (fj5_of f h5) (hs_slot f idx cur) (hs5_slot f idx cur) v hv hz,
+   (fj5_of f h5).key⟩
+
+theorem jsonOk_of_jsonOk5 (S : Schema) (E : Enums) (h : jsonOk5 S E = true) : jsonOk S E .camel = true := by
+  unfold jsonOk5 at h
+  simp only [Bool.and_eq_true] at h
+  exact h.1.1
+
+/-- **C05, sentence 2 — "and it reads the canonical form back".**  Inside the guards of
+    `canonical_message` plus C04's `groupsOk` (schema) and `selOk` (value: every oneof selection names
+    a member of its group), the canonical JSON object of `m` is JSON (`isJson`, unchanged by
+    `json.loads(json.dumps(·))`), and `Cls.from_dict` / `Cls().from_dict` on it both return one message
+    `m'` that is `m` up to `DEqv` (C04: same observable state, marks of nested messages set) and
+    re-encodes to the bytes of `m`.  Derived from `canonical_message` and `C04.roundtrip_all`. -/
+theorem canonical_read_back (S : Schema) (E : Enums) (c : Nat) (sl : List Val) (ow : Bool) (unk : Bytes)
+    (cur : List (Option Nat)) (hS : jsonOk5 S E = true) (hgroups : groupsOk S = true)
+    (hwt : wellTyped' S (.msg c sl ow unk cur) = true) (hsel : selOk S (.msg c sl ow unk cur) = true)
+    (hz : noNegZero S (.msg c sl ow unk cur) = true) :
+    isJson (specJson S E (.msg c sl ow unk cur)) = true ∧
+    jsonText (specJson S E (.msg c sl ow unk cur)) = some (specJson S E (.msg c sl ow unk cur)) ∧
+    ∃ m', fromDictC S E c (specJson S E (.msg c sl ow unk cur)) = .ok m' ∧
+      fromDictI S E (fresh S c) (specJson S E (.msg c sl ow unk cur)) = .ok m' ∧
+      DEqv S (.msg c sl ow unk cur) m' ∧ dumpVal S m' = dumpVal S (.msg c sl ow unk cur) := by
+  rw [← canonical_message S E _ hS hwt hz]
+  obtain ⟨t1, t2, m', a, i, _, _, b, d⟩ :=
+    C04.roundtrip_all S E .camel c sl ow unk cur (jsonOk_of_jsonOk5 S E hS) hgroups hwt hsel
+  exact ⟨t1, t2, m', a, i, b, d⟩
+
+/-- the statement of the evaluated examples above, for all messages: `from_dict` of the canonical
+    JSON re-encodes to `bytes(m)` -/
+theorem canonical_read_back_bytes (S : Schema) (E : Enums) (c : Nat) (sl : List Val) (ow : Bool) (unk : Bytes)
+    (cur : List (Option Nat)) (hS : jsonOk5 S E = true) (hgroups : groupsOk S = true)
+    (hwt : wellTyped' S (.msg c sl ow unk cur) = true) (hsel : selOk S (.msg c sl ow unk cur) = true)
+    (hz : noNegZero S (.msg c sl ow unk cur) = true) :
+    (fromDictC S E c (specJson S E (.msg c sl ow unk cur))).bind (dumpVal S) = dumpVal S (.msg c sl ow unk cur) := by
+  obtain ⟨_, _, m', a, _, _, d⟩ := canonical_read_back S E c sl ow unk cur hS hgroups hwt hsel hz
+  rw [a]; exact d
+
+/-! ### non-vacuity: the theorems on a concrete nested message -/
+
+/-- `enum Color { RED = 0; BLUE = 1; }` written by hand (Python names = proto names) -/
+def E5 : Enums := [[⟨[82, 69, 68], [82, 69, 68], 0⟩, ⟨[66, 76, 85, 69], [66, 76, 85, 69], 1⟩]]
+
+/-- `message Node { oneof kind { int32 leaf_val = 1; Node child = 2; } optional Node opt_child = 3;
+    repeated Node kids = 4; map<string, Node> by_name = 5; string label = 6;
+    google.protobuf.Timestamp created_at = 7; google.protobuf.Duration ttl = 8; int64 big = 9;
+    uint64 ubig = 10; bytes data = 11; float ratio = 12; Color color = 13;
+    google.protobuf.Int32Value count = 14; map<string, int32> tags = 15;
+    repeated google.protobuf.Timestamp stamps = 16; repeated sfixed64 ids = 17; }` -/
+def S5 : Schema := [{ fields := [
+    { name := "leaf_val", num := 1, ty := .int32, group := some 0 },
+    { name := "child", num := 2, ty := .message, kind := .user 0, group := some 0 },
+    { name := "opt_child", num := 3, ty := .message, kind := .user 0, optional := true },
+    { name := "kids", num := 4, ty := .message, kind := .user 0, repeated := true },
+    { name := "by_name", num := 5, ty := .map, mapK := .string, mapV := .message, mapVKind := .user 0 },
+    { name := "label", num := 6, ty := .string },
+    { name := "created_at", num := 7, ty := .message, kind := .timestamp },
+    { name := "ttl", num := 8, ty := .message, kind := .duration },
+    { name := "big", num := 9, ty := .int64 },
+    { name := "ubig", num := 10, ty := .uint64 },
+    { name := "data", num := 11, ty := .bytes },
+    { name := "ratio", num := 12, ty := .float },
+    { name := "color", num := 13, ty := .enum, enumRef := some 0 },
+    { name := "count", num := 14, ty := .message, wraps := some .int32 },
+    { name := "tags", num := 15, ty := .map, mapK := .string, mapV := .int32 },
+    { name := "stamps", num := 16, ty := .message, kind := .timestamp, repeated := true },
+    { name := "ids", num := 17, ty := .sfixed64, repeated := true }], nGroups := 1 }]
+/-- `Node(leaf_val=n)`: for n = 0 a oneof member set to its default -/
+def leaf5 (n : Int) : Val :=
+  .msg 0 [.int n, .ph, .none, .ph, .ph, .ph, .ph, .ph, .ph, .ph, .ph, .ph, .ph, .none, .ph, .ph, .ph] true [] [some 0]
+/-- `Node()` -/
+def empty5 : Val :=
+  .msg 0 [.ph, .ph, .none, .ph, .ph, .ph, .ph, .ph, .ph, .ph, .ph, .ph, .ph, .none, .ph, .ph, .ph] false [] [Option.none]
+/-- `Node(child=Node(leaf_val=0), opt_child=Node(), kids=[Node(leaf_val=7), Node()],
+    by_name={"k": Node(leaf_val=9)}, label="x", created_at=…, ttl=2.5 s, big=-(2^53+1), ubig=2^64-1,
+    data=b"\x01\x02\xff", ratio=nan, color=BLUE, count=3, tags={"a": 5}, stamps=[epoch, epoch+1µs], ids=[-1])` -/
+def m5 : Val :=
+  .msg 0 [.ph, leaf5 0, empty5, .list [leaf5 7, empty5], .dict [.str [107]] [leaf5 9], .str [120], .ts 1500000,
+    .dur 2500000, .int (-9007199254740993), .int 18446744073709551615, .byt [1, 2, 255], .f32 0x7fc00000, .int 1,
+    .int 3, .dict [.str [97]] [.int 5], .list [.ts 0, .ts 1], .list [.int (-1)]] true [] [some 1]
+
+/-- all guards of the two theorems hold on `S5` / `m5` (by evaluation), and `bytes(m5)` succeeds -/
+theorem canonical_instance_guards :
+    jsonOk5 S5 E5 = true ∧ groupsOk S5 = true ∧ wellTyped' S5 m5 = true ∧ selOk S5 m5 = true ∧
+    noNegZero S5 m5 = true ∧ (dumpVal S5 m5).isOk = true :=
+  ⟨by decide, by decide, by decide, by decide, by decide, by decide⟩
+
+/-- `canonical_message` and `canonical_read_back` instantiated on the concrete nested message: recursive
+    class, oneof with a sub-message member (holding a default-valued oneof member), optional
+    sub-message set to its default, repeated sub-messages (one empty), `map<string, Node>`, Timestamp,
+    Duration, int64 / uint64 / bytes / float NaN / enum / Int32Value / `map<string, int32>` /
+    repeated Timestamp / repeated sfixed64 fields -/
+theorem canonical_instance :
+    toDict S5 E5 .camel false m5 = specJson S5 E5 m5 ∧
+    isJson (specJson S5 E5 m5) = true ∧
+    (∃ m', fromDictC S5 E5 0 (specJson S5 E5 m5) = .ok m' ∧ fromDictI S5 E5 (fresh S5 0) (specJson S5 E5 m5) = .ok m' ∧
+      DEqv S5 m5 m' ∧ dumpVal S5 m' = dumpVal S5 m5) ∧
+    (fromDictC S5 E5 0 (specJson S5 E5 m5)).bind (dumpVal S5) = dumpVal S5 m5 := by
+  obtain ⟨g1, g2, g3, g4, g5, _⟩ := canonical_instance_guards
+  obtain ⟨t1, _, r⟩ := canonical_read_back S5 E5 0 _ _ _ _ g1 g2 g3 g4 g5
+  exact ⟨canonical_message S5 E5 m5 g1 g3 g5, t1, r, canonical_read_back_bytes S5 E5 0 _ _ _ _ g1 g2 g3 g4 g5⟩
+
+/-- the canonical object of `m5`, evaluated: keys are the lowerCamelCase names in declaration order,
+    the unselected oneof member is absent, the default-valued selected member `leafVal: 0` is there,
+    `optChild: {}`, the empty repeated item `{}`, 64-bit ints as decimal strings, base64, "NaN",
+    the enum value NAME, the bare wrapper value -/
+theorem canonical_instance_value :
+    specJson S5 E5 m5 =
+      .obj [.str [99, 104, 105, 108, 100], .str [111, 112, 116, 67, 104, 105, 108, 100], .str [107, 105, 100, 115],
+            .str [98, 121, 78, 97, 109, 101], .str [108, 97, 98, 101, 108],
+            .str [99, 114, 101, 97, 116, 101, 100, 65, 116], .str [116, 116, 108], .str [98, 105, 103],
+            .str [117, 98, 105, 103], .str [100, 97, 116, 97], .str [114, 97, 116, 105, 111],
+            .str [99, 111, 108, 111, 114], .str [99, 111, 117, 110, 116], .str [116, 97, 103, 115],
+            .str [115, 116, 97, 109, 112, 115], .str [105, 100, 115]]
+           [.obj [.str [108, 101, 97, 102, 86, 97, 108]] [.num 0],
+            .obj [] [],
+            .arr [.obj [.str [108, 101, 97, 102, 86, 97, 108]] [.num 7], .obj [] []],
+            .obj [.str [107]] [.obj [.str [108, 101, 97, 102, 86, 97, 108]] [.num 9]],
+            .str [120], .tsStr 1500000, .durStr 2500000, .decStr (-9007199254740993), .decStr 18446744073709551615,
+            .b64 [1, 2, 255], .fstr 2, .str [66, 76, 85, 69], .num 3, .obj [.str [97]] [.num 5],
+            .arr [.tsStr 0, .tsStr 1], .arr [.decStr (-1)]] := by rfl
+
+/-! ### what each guard excludes (beyond D16 / D17 / D25 above) -/
+
+def Smdbl : Schema := C04.one { name := "m", num := 1, ty := .map, mapK := .string, mapV := .double }
+/-- D17 (known), the float part of the schema guard: a `map<string, double>` value is written raw;
+    it differs from the canonical form only for NaN / ±Infinity (here NaN: a Python float `nan`,
+    which `json.dumps` prints as the non-JSON literal `NaN`, against the string "NaN") -/
+theorem d17_map_double_nan_witness :
+    fieldJsonOk5 { name := "m", num := 1, ty := .map, mapK := .string, mapV := .double } = false ∧
+    wellTyped' Smdbl (.msg 0 [.dict [.str [107]] [.f64 0x7ff8000000000000]] true [] []) = true ∧
+    toDict Smdbl [] .camel false (.msg 0 [.dict [.str [107]] [.f64 0x7ff8000000000000]] true [] [])
+      = .obj [.str [109]] [.obj [.str [107]] [.fnum 0x7ff8000000000000]] ∧
+    specJson Smdbl [] (.msg 0 [.dict [.str [107]] [.f64 0x7ff8000000000000]] true [] [])
+      = .obj [.str [109]] [.obj [.str [107]] [.fstr 2]] :=
+  ⟨by decide, by decide, by rfl, by rfl⟩
+
+/-- `message M { repeated google.protobuf.Int32Value w = 1; }` (outside `fieldJsonOk`: "a wrapper
+    field is singular") -/
+def Srw : Schema := C04.one { name := "w", num := 1, ty := .message, wraps := some .int32, repeated := true }
+/-- **a region found while fixing the guards of `canonical_message`** (replayed on the real code:
+    `M().to_dict() == {'w': []}`, `MessageToDict(ref) == {}`): the `meta.wraps` branch of `to_dict`
+    tests `value is not None`, so a REPEATED wrapper field is written even when its list is empty —
+    both for an untouched field (`ph`) and for an explicitly empty list.  The canonical mapping leaves
+    an empty repeated field out.  Non-empty lists agree.  The reference parser accepts `{"w": []}` as
+    the empty message, so this is a deviation of the printed form only. -/
+theorem repeated_wrapper_empty_witness :
+    fieldJsonOk { name := "w", num := 1, ty := .message, wraps := some .int32, repeated := true } = false ∧
+    wellTyped' Srw (.msg 0 [.ph] false [] []) = true ∧ wellTyped' Srw (.msg 0 [.list []] true [] []) = true ∧
+    toDict Srw [] .camel false (.msg 0 [.ph] false [] []) = .obj [.str [119]] [.arr []] ∧
+    specJson Srw [] (.msg 0 [.ph] false [] []) = .obj [] [] ∧
+    toDict Srw [] .camel false (.msg 0 [.list []] true [] []) = .obj [.str [119]] [.arr []] ∧
+    specJson Srw [] (.msg 0 [.list []] true [] []) = .obj [] [] ∧
+    toDict Srw [] .camel false (.msg 0 [.list [.int 1, .int 2]] true [] [])
+      = specJson Srw [] (.msg 0 [.list [.int 1, .int 2]] true [] []) :=
+  ⟨by decide, by decide, by decide, by rfl, by rfl, by rfl, by rfl, by rfl⟩
+
 end Bp.C05
+
+#print axioms Bp.C05.canonical_message
+#print axioms Bp.C05.canonical_field
+#print axioms Bp.C05.canonical_read_back
+#print axioms Bp.C05.canonical_read_back_bytes
+#print axioms Bp.C05.canonical_instance
+#print axioms Bp.C05.canonical_instance_value
+#print axioms Bp.C05.repeated_wrapper_empty_witness
+#print axioms Bp.C05.d17_map_double_nan_witness
